@@ -5,8 +5,12 @@ package main
 // concurrent Close / Connect (serial client: Close / operator reopens the port) from two further
 // goroutines, against the recording in-memory transport of conctransport.go.
 // Kinds: 0 = modbus.Client with TCP framing, 1 = modbus.Client with RTU framing, 2 = SerialClient.
-// Outcome: ok [whole, own, no_panic, serialised], or err [7] when the case did not finish within
-// concHangBound (deadlock / livelock).  Every call is made under recover: a panic inside the
+// Some cases use a SLOW DEVICE (replies readable 50 ms after the request, 8 goroutines queueing for
+// the lock, client time-outs 50 + 400 ms: the wait for the lock exceeds the time-outs, the
+// exchange itself does not); some attach a recording ClientHooks object that is deliberately NOT
+// goroutine-safe (the library calls hooks only while it holds its lock).
+// Outcome: ok [whole, own, no_panic, serialised, hooks_atomic], or err [7] when the case did not
+// finish within concHangBound (deadlock / livelock).  Every call is made under recover: a panic inside the
 // library is counted, the case goes on and is emitted.
 // Meant to be built with -race (the race detector is part of what the run exercises); works
 // without it as well.
@@ -46,7 +50,7 @@ var concHangs int
 
 // replies are available as soon as the request is written, so a short total read time-out only
 // matters when a reply was lost
-const concReadTimeout = 250 * time.Millisecond
+const concReadTimeout = 500 * time.Millisecond
 
 // a request whose bytes are unique within the run: id goes into the transaction id (TCP) and
 // into the start address (all kinds)
@@ -135,7 +139,102 @@ type concDoer interface {
 	Close() error
 }
 
-func concRun(kind int, r *rng, n, m int, nCloses int) {
+// concHooks records the hook calls of one case.  Deliberately NOT goroutine-safe: no mutex, no
+// atomics.  The library calls its hooks only while it holds the client's lock, so on a correct
+// library the calls are serialised by that lock (and -race stays silent).  Memory-safe even when
+// raced: the backing array is allocated once and never grows, records are fixed-size values.
+type concHookRec struct {
+	tag  int // 0 BeforeWrite, 1 AfterEachRead, 2 BeforeParse
+	n    int
+	data [300]byte
+}
+
+type concHooks struct {
+	recs     []concHookRec
+	overflow bool
+}
+
+func newConcHooks(capacity int) *concHooks {
+	return &concHooks{recs: make([]concHookRec, 0, capacity)}
+}
+
+func (h *concHooks) add(tag int, b []byte) {
+	k := len(h.recs)
+	if k >= cap(h.recs) {
+		h.overflow = true
+		return
+	}
+	h.recs = h.recs[:k+1]
+	h.recs[k].tag = tag
+	h.recs[k].n = copy(h.recs[k].data[:], b)
+}
+
+func (h *concHooks) BeforeWrite(toWrite []byte) { h.add(0, toWrite) }
+func (h *concHooks) AfterEachRead(received []byte, n int, err error) {
+	if n > 0 { // reads that time out with nothing are not recorded
+		h.add(1, received)
+	}
+}
+func (h *concHooks) BeforeParse(received []byte) { h.add(2, received) }
+
+// hooksAtomic: the trace is a concatenation of per-call blocks
+// [BeforeWrite req; AfterEachRead chunk ...; BeforeParse reply] (the BeforeParse only when the
+// exchange succeeded), the chunks of a block add up to its reply, the reply is the one to the
+// block's own request, and the completed blocks are exactly the successful calls.
+func hooksAtomic(kind int, h *concHooks, okReqs map[string]int) bool {
+	if h.overflow {
+		return false
+	}
+	want := map[string]int{}
+	for k, v := range okReqs {
+		want[k] = v
+	}
+	i, n := 0, len(h.recs)
+	for i < n {
+		if h.recs[i].tag != 0 {
+			return false
+		}
+		req := h.recs[i].data[:h.recs[i].n]
+		i++
+		var chunks []byte
+		for i < n && h.recs[i].tag == 1 {
+			chunks = append(chunks, h.recs[i].data[:h.recs[i].n]...)
+			i++
+		}
+		if i < n && h.recs[i].tag == 2 {
+			reply := h.recs[i].data[:h.recs[i].n]
+			i++
+			if !bytes.Equal(reply, concReply(kind, req)) || !bytes.Equal(chunks, reply) {
+				return false
+			}
+			want[string(req)]--
+		}
+	}
+	for _, v := range want {
+		if v != 0 {
+			return false
+		}
+	}
+	return true
+}
+
+type concOpts struct {
+	n, m, nCloses int
+	latency       time.Duration // slow device
+	readTimeout   time.Duration
+	writeTimeout  time.Duration
+	hooked        bool
+}
+
+type concResult struct {
+	name    string
+	args    V
+	outcome V
+	hang    bool
+}
+
+func concRun(kind int, r *rng, o concOpts) concResult {
+	n, m, nCloses := o.n, o.m, o.nCloses
 	// everything random is drawn here, before any goroutine starts
 	calls := make([][]*concCall, n)
 	for g := 0; g < n; g++ {
@@ -157,19 +256,25 @@ func concRun(kind int, r *rng, n, m int, nCloses int) {
 	var cmu sync.Mutex
 	var conns []*memConn
 	newConn := func() *memConn {
-		c := &memConn{kind: kind}
+		c := &memConn{kind: kind, latency: o.latency}
 		cmu.Lock()
 		conns = append(conns, c)
 		cmu.Unlock()
 		return c
 	}
 
+	var hooks *concHooks
+	var hooksIface modbus.ClientHooks // stays a nil interface when the case has no hooks
+	if o.hooked {
+		hooks = newConcHooks(16*n*m + 64)
+		hooksIface = hooks
+	}
 	ctx := context.Background()
 	var client concDoer
 	var connect func()
 	switch kind {
 	case 0, 1:
-		conf := modbus.ClientConfig{ReadTimeout: concReadTimeout,
+		conf := modbus.ClientConfig{ReadTimeout: o.readTimeout, WriteTimeout: o.writeTimeout, Hooks: hooksIface,
 			DialContextFunc: func(ctx context.Context, address string) (net.Conn, error) {
 				return newConn(), nil
 			}}
@@ -184,7 +289,11 @@ func concRun(kind int, r *rng, n, m int, nCloses int) {
 		client = c
 	default:
 		port := newConn()
-		client = modbus.NewSerialClient(port, modbus.WithSerialReadTimeout(concReadTimeout))
+		opts := []modbus.SerialClientOptionFunc{modbus.WithSerialReadTimeout(o.readTimeout)}
+		if o.hooked {
+			opts = append(opts, modbus.WithSerialHooks(hooksIface))
+		}
+		client = modbus.NewSerialClient(port, opts...)
 		connect = port.reopen // the operator plugs the device in again; not a library call
 	}
 
@@ -317,30 +426,87 @@ func concRun(kind int, r *rng, n, m int, nCloses int) {
 	}
 	np := int(atomic.LoadInt32(&panics))
 	name := []string{"conc_tcp", "conc_rtu", "conc_serial"}[kind]
-	args := L(I(kind), L(logVals...), L(callVals...), L(connVals...), I(np))
-	if hang {
-		concHangs++
-		emit(name, args, vErr(I(7)))
-		return
+	// the hook trace is only read when every goroutine of the case has finished
+	atomicHooks := true
+	var traceVals []V
+	if hooks != nil && !hang {
+		okReqs := map[string]int{}
+		rmu.Lock()
+		for g := 0; g < n; g++ {
+			for _, c := range calls[g] {
+				if c.status == 0 {
+					okReqs[string(c.bytes)]++
+				}
+			}
+		}
+		rmu.Unlock()
+		atomicHooks = hooksAtomic(kind, hooks, okReqs)
+		for i := range hooks.recs {
+			rec := &hooks.recs[i]
+			traceVals = append(traceVals, L(I(rec.tag), B(rec.data[:rec.n])))
+		}
+		if hooks.overflow {
+			traceVals = append(traceVals, L(I(9), B(nil))) // more hook calls than a correct run can make
+		}
 	}
-	emit(name, args, vOk(Bool(whole), Bool(own), Bool(np == 0), Bool(serialised)))
+	hk := 0
+	if o.hooked {
+		hk = 1
+	}
+	args := L(I(kind), L(logVals...), L(callVals...), L(connVals...), I(np),
+		L(I(int(o.latency/time.Millisecond)), I(hk)), L(traceVals...))
+	if hang {
+		return concResult{name, args, vErr(I(7)), true}
+	}
+	return concResult{name, args, vOk(Bool(whole), Bool(own), Bool(np == 0), Bool(serialised), Bool(atomicHooks)), false}
+}
+
+func concEmit(res concResult) {
+	if res.hang {
+		concHangs++
+	}
+	emit(res.name, res.args, res.outcome)
 }
 
 func streamConc(seed uint64, thorough bool) {
 	r := newRng(seed ^ 0xC14C14)
-	runs, serialRuns := 80, 6
+	runs, serialRuns, slowRuns := 80, 6, 6
 	if thorough {
-		runs, serialRuns = 600, 40
+		runs, serialRuns, slowRuns = 600, 40, 40
 	}
 	for i := 0; i < runs && concHangs < concMaxHangs; i++ {
 		kind := i % 2
 		n := 2 + r.intn(7)  // 2..8 goroutines
 		m := 1 + r.intn(20) // 1..20 calls each
-		concRun(kind, r, n, m, r.intn(6))
+		concEmit(concRun(kind, r, concOpts{n: n, m: m, nCloses: r.intn(6), readTimeout: concReadTimeout, hooked: i%4 >= 2}))
 	}
 	// the serial client sleeps 30 ms per exchange: few and small runs; Close (and the operator
 	// reopening the port) at several drawn points, also inside exchanges
 	for i := 0; i < serialRuns && concHangs < concMaxHangs; i++ {
-		concRun(2, r, 2+r.intn(3), 1+r.intn(4), r.intn(5))
+		concEmit(concRun(2, r, concOpts{n: 2 + r.intn(3), m: 1 + r.intn(4), nCloses: r.intn(5),
+			readTimeout: concReadTimeout, hooked: i%2 == 1}))
+	}
+	// slow device: 8 goroutines queue for the lock, 50 ms per exchange, time-outs 50 + 400 ms: the
+	// wait for the lock (up to 15 exchanges = 750 ms) is longer than write + read time-out, the
+	// exchange itself is 8 times shorter than the read time-out (margin against a loaded machine).  Every
+	// call has to succeed with its own reply.  The cases run in parallel (each on its own client and
+	// transport, with a PRNG split off the run's one PRNG), results are emitted in order.
+	if concHangs >= concMaxHangs {
+		return
+	}
+	results := make([]concResult, slowRuns)
+	var wg sync.WaitGroup
+	for i := 0; i < slowRuns; i++ {
+		sub := newRng(r.next())
+		wg.Add(1)
+		go func(i int, sub *rng) {
+			defer wg.Done()
+			results[i] = concRun(i%2, sub, concOpts{n: 8, m: 2, latency: 50 * time.Millisecond,
+				readTimeout: 400 * time.Millisecond, writeTimeout: 50 * time.Millisecond})
+		}(i, sub)
+	}
+	wg.Wait()
+	for _, res := range results {
+		concEmit(res)
 	}
 }
